@@ -114,6 +114,9 @@ func RandomTree(r *rand.Rand, o genOpts) model.Tree {
 		if o.Xattrs && (e.Type == "file" || e.Type == "dir") && e.Group == 0 && r.Intn(5) == 0 {
 			e.Xattrs = map[string]string{"user.k" + fmt.Sprint(r.Intn(3)): fmt.Sprint("v", r.Intn(100))}
 			if r.Intn(3) == 0 {
+				e.Xattrs["user.flag"] = "" // an attribute with an empty value is still an attribute
+			}
+			if r.Intn(3) == 0 {
 				e.Xattrs["trusted.t"] = "\x00\x01bin"
 			}
 		}
